@@ -13,8 +13,8 @@ move     {'t': [3] rigid translation of the deformed system, 'boxshift': [3] rel
           against its atoms (atoms are then wrapped back into it: same periodic crystal, other images)}
 hist     {'ops0': [query, ...] earlier queries on the reference System object, 'ops1': [...] on the deformed one
           (query = {'op': nlist|r0|dvect|scaled|attr|wrap|derived, 'k': int, 'x': float in [0,1]}, resolved against the
-          current state in the oracle), 'build1': None | {'state': ref|other, 'pos': int, 'box': int, 'pbcflip': bool,
-          'form': int}: the deformed System object first exists in another state (queried there) and is then brought to
+          current state in the oracle), 'build0' / 'build1': None | {'state': ref|other, 'pos': int, 'box': int, 'pbcflip': bool,
+          'form': int}: the reference / deformed System object first exists in another state (queried there) and is then brought to
           the judged state in place through the public setters selected by pos / box / form,
           'decoy': bool (the tools run on an unrelated pair of systems in between), 'repeat': bool (the judged
           function calls are repeated at the end and must return the same), 'forms': int (bit field: numpy-scalar
@@ -131,7 +131,7 @@ _refmode = st.sampled_from(['base', 'base', 'base', 'peratom', 'single', 'axes',
 _nbrmode = st.sampled_from(['cutoff', 'cutoff', 'neighbors'])
 _ref01 = st.sampled_from([0, 1])
 _quarter = st.integers(0, 3)
-_lazy = st.sampled_from([0, 0, 1, 2, 3, 4, 5])
+_lazy = st.sampled_from([0, 0, 1, 2, 3, 4, 5, 5, 6])
 _third = st.integers(0, 2)
 _cfg = st.sampled_from(['F', 'slip'])
 _cut = st.integers(0, 2)
@@ -167,11 +167,13 @@ def inplace_builds(draw):
 
 
 _build1 = st.one_of(st.none(), inplace_builds())
+_build0 = st.one_of(st.none(), st.none(), inplace_builds())
 
 
 @st.composite
 def histories(draw, build=True):
-    return {'ops0': draw(QUERIES), 'ops1': draw(QUERIES), 'build1': draw(_build1) if build else None,
+    return {'ops0': draw(QUERIES), 'ops1': draw(QUERIES), 'build0': draw(_build0) if build else None,
+            'build1': draw(_build1) if build else None,
             'decoy': draw(_bool), 'repeat': draw(_bool), 'forms': draw(_forms), 'intpos': draw(_intpos)}
 
 
